@@ -15,7 +15,7 @@ Oracle   comment stream (kind, text) equal in order and count after the only nor
 import os
 import random
 
-from vf import clex, core, corpus, family, gen_c, layout, registry, tokrel
+from vf import gen_cpp, clex, core, corpus, family, gen_c, layout, registry, tokrel
 
 BUILDS = ('fast',)
 LEVEL = 'exploration'
@@ -174,6 +174,28 @@ def carrier(rng):
     return 'D', 'void f() {\n%sauto s = `%s`;\n%sint after = 1;\n}\n' % (ind, c, ind)
 
 
+def make_strategy_cpp():
+    from hypothesis import strategies as st
+    return st.tuples(gen_cpp.cpp_program(max_snippets=4), st.integers(0, 2 ** 32 - 1), st.integers(0, 2 ** 32 - 1))
+
+
+def to_case_cpp(v):
+    toks, lseed, cseed = v
+    rng = random.Random(lseed)
+    src, r = layout.render(toks, rng, 'CPP', dict(p_cmt=rng.choice([0.15, 0.4, 0.8]), bs_cmt=0.2, p_nl_slot=0.2))
+    crng = random.Random(cseed)
+    k = cseed % 5
+    cfgd = {} if k == 0 else family.apply_exclusions(registry.random_cfg(crng, CLASSES, (0.01, 0.03, 0.08, 0.2)[k - 1]), _EX)
+    if k in (1, 2):      # the position options move tokens across line breaks (and across // comments if a guard is missing)
+        for o in crng.sample(POS_OPTS, 3):
+            cfgd[o] = crng.choice(['lead', 'trail', 'lead_break', 'trail_break', 'lead_force', 'trail_force', 'join'])
+    return family.Case(src.encode('utf-8'), 'CPP', cfgd, {'kind': 'generated-cpp', 'layout_seed': lseed, 'cfg_seed': cseed})
+
+
+POS_OPTS = ['pos_arith', 'pos_assign', 'pos_bool', 'pos_compare', 'pos_conditional', 'pos_comma', 'pos_enum_comma', 'pos_class_comma',
+            'pos_constr_comma', 'pos_class_colon', 'pos_constr_colon', 'pos_shift']
+
+
 def main(ctx):
     quick = ctx.tier == 'quick'
     ex = family.exclusions(ctx)
@@ -199,4 +221,5 @@ def main(ctx):
         cases.append(family.Case(text.encode('utf-8'), lang, r.choice(ccfgs), {'kind': 'carrier', 'i': i}))
     raw = family.explore(ctx, judge, cases)
     raw += family.hyp_explore(ctx, judge, make_strategy, to_case, shards=16, examples=(60 if quick else 3000))
+    raw += family.hyp_explore(ctx, judge, make_strategy_cpp, to_case_cpp, shards=16, examples=(80 if quick else 3000))
     family.triage(ctx, judge, raw)
